@@ -19,10 +19,29 @@ static inline size_t align_up(size_t value, size_t alignment) {
     return (value + alignment - 1) & ~(alignment - 1);
 }
 
+#ifdef CARQUET_VERIF
+/* Verification hook: CARQUET_VERIF_ARENA_BLOCK=<power of two >= 16> replaces
+ * the 64 KiB block granularity, so that small inputs cross block boundaries
+ * (at every offset and alignment) the way only very large metadata would. */
+static size_t arena_verif_granule(void) {
+    extern char* getenv(const char*);
+    extern long atol(const char*);
+    const char* e = getenv("CARQUET_VERIF_ARENA_BLOCK");
+    long v = e ? atol(e) : 0;
+    return (v >= 16 && (v & (v - 1)) == 0) ? (size_t)v : 0;
+}
+#endif
+
 static carquet_arena_block_t* arena_new_block(size_t min_size) {
     size_t block_size = min_size < CARQUET_ARENA_DEFAULT_BLOCK_SIZE
                             ? CARQUET_ARENA_DEFAULT_BLOCK_SIZE
                             : align_up(min_size, CARQUET_ARENA_DEFAULT_BLOCK_SIZE);
+#ifdef CARQUET_VERIF
+    if (arena_verif_granule()) {
+        size_t g = arena_verif_granule();
+        block_size = min_size < g ? g : align_up(min_size, g);
+    }
+#endif
 
     /* Allocate the header plus the data block.
      * Note: offsetof accounts for the union's alignment padding */
@@ -46,6 +65,11 @@ static carquet_arena_block_t* arena_new_block(size_t min_size) {
  */
 
 carquet_status_t carquet_arena_init(carquet_arena_t* arena) {
+#ifdef CARQUET_VERIF
+    if (arena_verif_granule()) {
+        return carquet_arena_init_size(arena, arena_verif_granule());
+    }
+#endif
     return carquet_arena_init_size(arena, CARQUET_ARENA_DEFAULT_BLOCK_SIZE);
 }
 
